@@ -18,8 +18,26 @@ GROUP = Group("driver-fusion", name="driver-fusion", no_default_features=False, 
 PLAN = [(GROUP, {"quick": ["c14_q_"], "thorough": ["c14_t_"]})]
 
 
+WRAP_ASSUMPTIONS = [
+    "layer 2 (compio-net Socket / stream wrappers): the wrappers' coroutine MIR is interpreted with uninterpreted functions for every callee outside the "
+    "crate (op constructors, submit, result-mapping traits); a submission answers Pending (<= 2 times) or Ready(driver result)",
+    "the specification table (mirsym/c08_wrappers.py SPECS) states per wrapper which operation is built from which arguments "
+    "and which result mapping is applied; it is written from the documented behaviour, not derived from the code",
+    "outside: what the mapping functions themselves do (op layer), managed / multishot / zero-copy variants, connect/accept/bind, "
+    "address conversion, the runtime's submit machinery",
+]
+
+
 def run(tier):
-    return kaniprop.run("C14", tier, PLAN, ASSUMPTIONS)
+    import sys, os
+    sys.path.insert(0, os.path.join(os.path.dirname(os.path.abspath(__file__)), "..", "mirsym"))
+    import multiprop
+    import mirprop
+    from wrapplan import WrapPlan
+    return multiprop.run("C14", tier, [
+        ("op-layer (kani)", lambda: kaniprop.run("C14", tier, PLAN, ASSUMPTIONS)),
+        ("wrapper-layer (mirsym)", lambda: mirprop.run("C14", tier, WrapPlan("compio-net", ["compio-driver/io-uring"]), WRAP_ASSUMPTIONS)),
+    ])
 
 
 def replay(path):
